@@ -158,7 +158,7 @@ def model_text(reply):
 MAX_CONFIGS = 3
 
 
-def gen_numeric(ctx: Ctx, frozen=False, single=False, malformed=False):
+def gen_numeric(ctx: Ctx, frozen=False, single=False, malformed=False, window=False):
     rng = ctx.rng
     n = rng.randint(2 if single else 1, 4)
     thickness = [dyadic(rng, 0.5, 1.5, 2) for _ in range(n)]
@@ -171,7 +171,7 @@ def gen_numeric(ctx: Ctx, frozen=False, single=False, malformed=False):
         spec = [rng.randint(0, n - 2)]
     if malformed:
         spec = gen_planes(rng, n, weird=True)
-        if spec == sorted(set(spec)) and all(-1 <= q < n for q in spec):  # the mutation happened to stay valid
+        if spec == sorted(set(spec)) and spec[0] >= -1:  # still acceptable (strictly increasing from -1; no upper bound is enforced)
             spec = spec + [spec[0]]
     builder = rng.choice(["plane", "probe"])
     det = rng.choice(["waves", "pixelated"] if builder == "plane" else ["waves", "annular", "flexible", "pixelated"])
@@ -182,7 +182,10 @@ def gen_numeric(ctx: Ctx, frozen=False, single=False, malformed=False):
     nfp = rng.randint(1, MAX_CONFIGS) if frozen and pot != "crystal" else 0
     if pot == "array" and nfp > 1:
         nfp = 1  # eager build of a multi-configuration ensemble is C10's subject (DESIGN §7 F2), not this property's
-    return dict(malformed=malformed, entry=rng.choice(["builder", "builder", "real", "reciprocal"]),
+    if window:
+        n = max(n, 2)
+        thickness = (thickness + [1.0])[:n] if len(thickness) >= n else thickness + [1.0] * (n - len(thickness))
+    return dict(window=(rng.randint(1, n - 1) if window else 0), malformed=malformed, entry=rng.choice(["builder", "builder", "real", "reciprocal"]),
                 thickness=thickness, atoms=atoms, spec=spec, builder=builder, det=det, scan=scan,
                 gpts=rng.choice([8, 12, 16]), pot=pot, lazy=rng.random() < 0.4, nfp=nfp, seed=rng.randint(0, 10 ** 6))
 
@@ -343,6 +346,20 @@ class C07(Property):
         from abtem.potentials.iam import PotentialArray
 
         tag = f"{c['pot']}:{c['builder']}:{c['det']}:{'lazy' if c['lazy'] else 'eager'}"
+        if c.get("window"):
+            # a slice window of a built potential inherits the exit planes of the full stack
+            import abtem
+            from abtem.potentials.iam import PotentialArray as PA
+            full = abtem.Potential(_atoms(c), gpts=c["gpts"], slice_thickness=tuple(c["thickness"])).build(lazy=False)
+            k = c["window"]
+            got = np.asarray(_run(c, full[0:k], entry="builder").array)
+            exp = np.asarray(_run(c, PA(full.array[:k], slice_thickness=tuple(c["thickness"][:k]), extent=4.0), entry="builder").array)
+            ok, why = _close(got, exp)
+            if not ok:
+                nothing = bool(np.all(got == 0)) and tuple(int(p) for p in full[0:k].exit_planes) == (len(c["thickness"]) - 1,)
+                ctx.violation("window-of-potential-array-records-nothing" if nothing else "window-of-potential-array-neq-truncated-run",
+                              c, {"window": [0, k], "exit_planes_of_window": [int(p) for p in full[0:k].exit_planes], "what": why})
+            return
         if c.get("malformed"):
             # unsorted / repeated / out-of-range explicit exit planes: must be rejected when the potential is made — never
             # turned into zero-filled entries labelled with a thickness
@@ -421,7 +438,7 @@ class C07(Property):
 
     def conformance(self, ctx: Ctx):
         for i in range(ctx.n(72, 800)):
-            c = gen_numeric(ctx, frozen=(i % 3 == 2), single=(i % 6 == 5), malformed=(i % 8 == 7))
+            c = gen_numeric(ctx, frozen=(i % 3 == 2), single=(i % 6 == 5), malformed=(i % 8 == 7), window=(i % 12 == 4))
             try:
                 self.oracle(ctx, c)
             except Exception as e:  # noqa
